@@ -513,6 +513,10 @@ func genFromAlphabet(t *rapid.T, label, alpha string, min, max int) string {
 // genWellFormedCore draws (epoch?, upstream, revision?) from the Policy grammar.
 // Epochs are folded into the range of the Epoch member (a uint: 32 bits on a
 // 32-bit build, where the checks are run as well).
+// longVersions: set by the C01-C03 tests (each test function is its own process): one version
+// in eight is 12..260 tokens long.
+var longVersions bool
+
 func genWellFormedCore(t *rapid.T, label string) WellFormed {
 	return genWellFormedCoreX(t, label, false)
 }
@@ -544,6 +548,10 @@ func genWellFormedCoreX(t *rapid.T, label string, anyEpoch bool) WellFormed {
 	// upstream: digit, then [A-Za-z0-9.+~]*, plus ':' only with epoch and '-' only with revision
 	up := string(byte('0' + rapid.IntRange(0, 9).Draw(t, label+"u0")))
 	n := rapid.IntRange(0, 8).Draw(t, label+"un")
+	if longVersions && rapid.IntRange(0, 7).Draw(t, label+"ulong") == 0 {
+		// renderings beyond small fixed-size buffers (32, 64, 128, 256 bytes)
+		n = rapid.SampledFrom([]int{12, 20, 28, 33, 45, 60, 64, 70, 100, 130, 260}).Draw(t, label+"ulen")
+	}
 	for i := 0; i < n; i++ {
 		switch k := rapid.IntRange(0, 9).Draw(t, label+"uk"); {
 		case k <= 3:
